@@ -27,6 +27,8 @@ func Desc(v ssa.Value) string {
 
 const maxDescDepth = 40
 
+var inlTmp = regexp.MustCompile(`^_inl\d+_([A-Za-z]\w*)$`)
+
 var fieldChainRe = regexp.MustCompile(`(\.&\w+)+$`)
 
 func descN(v ssa.Value, depth int, seen map[ssa.Value]bool) string {
@@ -797,6 +799,13 @@ func canonMap(cur, frozen []string) []string {
 	if len(cur) != len(frozen) {
 		return nil
 	}
+	// temporaries of the normalisation pass carry the name of the parameter they bind (_inl<N>_<name>)
+	cur = append([]string(nil), cur...)
+	for i, c := range cur {
+		if m := inlTmp.FindStringSubmatch(c); m != nil {
+			cur[i] = m[1]
+		}
+	}
 	count := func(xs []string) map[string]int {
 		m := map[string]int{}
 		for _, x := range xs {
@@ -846,6 +855,9 @@ func canonLocal(a *ssa.Alloc) string {
 				}
 			}
 		}
+	}
+	if m := inlTmp.FindStringSubmatch(a.Comment); m != nil {
+		return m[1] // a temporary of the normalisation pass stands for the parameter it binds
 	}
 	return a.Comment
 }
